@@ -338,11 +338,12 @@ for _k in range(22):
        cbmc=IO_UNW, unwind_rules=C09_RULES, cls="bounded",
        bound="string arguments of <= 11 bytes; one concrete <id> <address> <port> prefix with the client-directed formats (the prefix itself: jobs C09.send.prefix.*)",
        defines=["KIND=%d" % _k, "ADDR_MAX=8"] + (["CONCRETE_PREFIX"] if _k < 12 else []), timeout=2400, cost=4)
-for _sp, _nm in ((1, "id"), (2, "port"), (3, "addr")):
-    IJ("C09.send.prefix.%s" % _nm, "C09", "h_send", SETM, harness="harness/h_iauth_io.c", stubs=IAUTH_STUBS + ["stubs/stdout_model.c"], functions=["iauth_send"],
-       cbmc=IO_UNW, unwind_rules=C09_RULES, cls="bounded", tiers=("quick", "thorough"),
-       bound="format d; the %s of the prefix symbolic (every int id / every port / every address text of <= 8 bytes), the other two concrete" % _nm,
-       defines=["KIND=12", "ADDR_MAX=8", "SYM_PART=%d" % _sp], timeout=2400, cost=20, solver="kissat")
+for _sp, _nm, _lens in ((1, "id", range(1, 8)), (2, "port", range(1, 6)), (3, "addr", range(1, 9))):
+    for _ln in _lens:
+        IJ("C09.send.prefix.%s%d" % (_nm, _ln), "C09", "h_send", SETM, harness="harness/h_iauth_io.c", stubs=IAUTH_STUBS + ["stubs/stdout_model.c"], functions=["iauth_send"],
+           cbmc=IO_UNW, unwind_rules=C09_RULES, cls="bounded", tiers=(("thorough",) if (_nm == "id" and _ln > 5) else ("quick", "thorough")),
+           bound="format d; the %s of the prefix symbolic with printed length %d (ids 0..9999999, ports 0..65535, address texts of 1-8 bytes: one job per length), the other two parts concrete" % (_nm, _ln),
+           defines=["KIND=12", "ADDR_MAX=8", "SYM_PART=%d" % _sp, "SYM_DIGITS=%d" % _ln], timeout=2400, cost=20)
 IJ("C09.send.prefix.all", "C09", "h_send", SETM, harness="harness/h_iauth_io.c", stubs=IAUTH_STUBS + ["stubs/stdout_model.c"], functions=["iauth_send"],
    cbmc=IO_UNW, unwind_rules=C09_RULES, cls="bounded", tiers=("thorough",), bound="format d; id, port and address text (<= 8 bytes) symbolic together",
    defines=["KIND=12", "ADDR_MAX=8"], timeout=7200, cost=60, solver="kissat")
@@ -383,11 +384,12 @@ GENERATORS.append(_c08_jobs)
 PROPS["C11"] = dict(level="model_checking", explanation="rule criteria conjunction, class/username effects, first-match scan; glob semantics are libc's (uninterpreted); rule compilation order by C19 + conf_object_cmp")
 CL_STUBS = [x for x in IAUTH_STUBS if "fnmatch" not in x]
 for _cn, _tiers, _unw in ((8, ("quick",), "12"), (70, ("thorough",), "72")):
-    IJ("C11.rule_check.name%d" % (_cn - 1), "C11", "h_rule_check", ["iauth_xreply_ok", "iauth_trust_username", "iauth_send", "iauth_check_request"] + SETM,
-       harness="harness/h_iauth_class.c", stubs=CL_STUBS, functions=["iauth_class_rule_check"], defines=["CN_MAX=%d" % _cn], tiers=_tiers,
-       cbmc=["--unwind", _unw, "--unwindset", "irc_check_mask.0:9,spec_prefix_equal.0:130,memset.0:200,h_rule_check.0:66,h_rule_check.1:67,h_rule_check.2:67,h_rule_check.3:67,h_rule_check.4:66,h_rule_check.5:66,fnmatch.0:67,strchr.0:67"],
-       cls="bounded", bound="class / rule names up to %d bytes; glob results uninterpreted" % (_cn - 1),
-       assumptions=["fnmatch is libc's: its result is an arbitrary input of the proof (S2)"], timeout=2400, cost=10)
+    for _crit in range(16):
+        IJ("C11.rule_check.name%d.crit%x" % (_cn - 1, _crit), "C11", "h_rule_check", ["iauth_xreply_ok", "iauth_trust_username", "iauth_send", "iauth_check_request"] + SETM,
+           harness="harness/h_iauth_class.c", stubs=CL_STUBS, functions=["iauth_class_rule_check"], defines=["CN_MAX=%d" % _cn, "CRIT=%d" % _crit], tiers=_tiers,
+           cbmc=["--unwind", _unw, "--unwindset", "irc_check_mask.0:9,spec_prefix_equal.0:130,memset.0:200,h_rule_check.0:66,h_rule_check.1:67,h_rule_check.2:67,h_rule_check.3:67,h_rule_check.4:66,h_rule_check.5:66,fnmatch.0:67,strchr.0:67"],
+           cls="bounded", bound="class / rule names up to %d bytes; glob results uninterpreted; one job per subset of {account, username, hostname, xreply_ok} criteria" % (_cn - 1),
+           assumptions=["fnmatch is libc's: its result is an arbitrary input of the proof (S2)"], timeout=2400, cost=10)
 IJ("C11.class_assign", "C11", "h_class_assign", ["iauth_class_rule_check", "iauth_send"] + SETM, harness="harness/h_iauth_class.c", stubs=CL_STUBS,
    functions=["iauth_class_assign", "iauth_class_foreach_rule"], cbmc=["--unwind", "6"], cls="bounded", bound="up to 4 rules", timeout=900, cost=3)
 
@@ -467,12 +469,16 @@ CJ("C16.typed_values.len7", "C16", "h_typed_values", functions=["conf_parse_bool
 CJ("C16.string_value.len7", "C16", "h_string_value", functions=["conf_parse_string_value"], replay=CFG_NATIVE, extra_props=("C15",), bound="value text of <= 7 bytes", cbmc=["--unwindset", "strcmp.0:10,memcmp.0:10"])
 CJ("C15.string_list.len3", "C15", "h_string_list_value", functions=["conf_set_string_list_value"], replay=CFG_NATIVE, extra_props=("C16",), bound="lists of <= 3 one-byte items")
 CJ("C14.conf_read", "C14", "h_conf_read", remove=["conf_read_file", "conf_parse_entry", "conf_replace_value"], functions=["conf_read"], extra_props=("C15",),
-   cls="proof", bound="")
+   cls="proof", bound="", cbmc=["--nondet-static", "--unwindset", "memset.0:200"])
 CJ("C14.parse_string.len8", "C14", "h_parse_string", remove=["xmalloc", "xrealloc"], late_stubs=["stubs/tramp_config.c", "stubs/xmalloc_small.c"],
    functions=["conf_parse_string", "conf_parse_whitespace"], extra_props=("C16",), bound="file buffers of <= 8 bytes", replay=CFG_NATIVE,
    cbmc=["--unwindset", "memset.0:40"], defines=["TOK_LEN=8"], mem=16, solver="minisat")
 CJ("C14.parse_whitespace.len8", "C14", "h_parse_whitespace", functions=["conf_parse_whitespace"], replay=CFG_NATIVE, extra_props=("C16",), bound="file buffers of <= 8 bytes")
-CJ("C15.replace_inaddr", "C15", "h_replace_inaddr", functions=["conf_replace_value"], extra_props=("C14",), bound="", cls="proof",
+for _t in range(12):
+    CJ("C16.entry_template.t%02d" % _t, "C16", "h_parse_entry_template", remove=["xmalloc", "xrealloc"], late_stubs=["stubs/tramp_config.c", "stubs/xmalloc_small.c"],
+       functions=["conf_parse_entry", "conf_parse_get_child", "conf_parse_string", "conf_parse_whitespace"], bound="one concrete documented rendering", defines=["TPL=%d" % _t],
+       cbmc=["--unwind", "24", "--unwindset", "conf_parse_entry:3,memset.0:200,str_eq.0:17,nth.0:4,strcasecmp.0:4,strcmp.0:4,strdup.0:4,strlen.0:4"], solver="minisat", timeout=900, mem=16)
+CJ("C15.replace_inaddr", "C15", "h_replace_inaddr", functions=["conf_replace_value"], extra_props=("C14",), bound="", cls="proof", tiers=("thorough",),
    cbmc=["--unwind", "4", "--unwindset", "strcasecmp.0:4,conf_replace_value:1,conf_object_cleanup:2,model_set_clear:2,sm_dispose:2,set_clear:2"])
 
 PROPS["C17"] = dict(level="model_checking", explanation="service-table rebuild executed for every small section x previous table (exhaustive enumeration); merge-side hook delivery: known finding F13")
